@@ -171,12 +171,42 @@ def parallel(fn, items, n=None):
 # ----------------------------------------------------------------------------------------------
 # running real code
 
-def run_driver(script, args=(), stdin_obj=None, timeout=3600, env=None, python=None, hooks=True):
-    """Run harness/drivers/<script> under the repository's interpreter against REPO's working tree."""
+SHIM = os.path.join(VERIF, "harness", "native", "libchunkcache.so")
+
+
+def build_shim(verbose=False):
+    """Compile the LD_PRELOAD performance shim (harness/native/chunkcache.c); the drivers work without it, only slower."""
+    src = os.path.join(VERIF, "harness", "native", "chunkcache.c")
+    if os.path.exists(SHIM) and os.path.getmtime(SHIM) >= os.path.getmtime(src):
+        return True
+    for cc in ("gcc", "clang", "cc"):
+        try:
+            tmp = SHIM + ".%d.tmp" % os.getpid()
+            p = subprocess.run([cc, "-O2", "-shared", "-fPIC", "-o", tmp, src, "-ldl"], stdout=subprocess.PIPE, stderr=subprocess.STDOUT, text=True)
+            if p.returncode == 0:
+                os.replace(tmp, SHIM)
+                if verbose:
+                    print("setup: built %s with %s" % (os.path.basename(SHIM), cc))
+                return True
+        except OSError:
+            continue
+    if verbose:
+        print("setup: could not build the performance shim; drivers will run without it (slower)")
+    return False
+
+
+def driver_env():
     e = dict(os.environ)
     e["PYTHONPATH"] = REPO + os.pathsep + os.path.join(VERIF, "harness")
     e["PYTHONHASHSEED"] = "0"
     e["PYTHONDONTWRITEBYTECODE"] = "1"
+    if build_shim():
+        e["LD_PRELOAD"] = SHIM
+    return e
+
+def run_driver(script, args=(), stdin_obj=None, timeout=3600, env=None, python=None, hooks=True):
+    """Run harness/drivers/<script> under the repository's interpreter against REPO's working tree."""
+    e = driver_env()
     if hooks:
         e[GUARD] = "1"
     else:
